@@ -466,7 +466,12 @@ def rule_compare_formats(run):
     run.end()
 
 
-RULES = [rule_format, rule_ctor, rule_ctor_abs, rule_round, rule_sat, rule_siblings, rule_template_arg, rule_replacements, rule_castmatrix, rule_choose_first, rule_views, rule_template_cache, rule_values, rule_const_resize, rule_compare_formats]
+def rule_const_arith(run):
+    from ..rules import intarith
+    intarith.run_extension_rule(run, "C09.ext")   # constant fixed-point +/- is Unsigned/Signed add/sub: extension, negation at result width, wrap
+
+
+RULES = [rule_format, rule_ctor, rule_ctor_abs, rule_round, rule_sat, rule_siblings, rule_template_arg, rule_replacements, rule_castmatrix, rule_choose_first, rule_views, rule_template_cache, rule_values, rule_const_resize, rule_compare_formats, rule_const_arith]
 LEVEL = "other"
 EXPLANATION = (
     "Fixed-point exactness is decided for the format algebra: + - * of both classes are interpreted abstractly over a "
